@@ -10,7 +10,7 @@ from . import _auth
 
 ID = "C20"
 P = "Webauthn.Props.C20."
-THEOREMS = [P + n for n in ("auth_mono", "origins_superset", "single_as_list", "single_into_list")]
+THEOREMS = [P + n for n in ("auth_mono", "reg_mono", "algAllowed_mono", "origins_superset", "single_as_list", "single_into_list")]
 LEAN_TARGETS = ["Props.C20"]
 SPEC_FILES = ["Spec/Core.lean"]
 ASSUMPTIONS = ["bytes / bytes-subclass / memoryview input forms are Python runtime typing: covered by the tie only"]
@@ -45,12 +45,79 @@ def byte_forms(a, e, wrap):
     return a2, dict(e, challenge=wrap(e["challenge"]), public_key=wrap(e["public_key"]))
 
 
+REG_ALGS = [[], [-7], [-8], [-257], [-7, -8], [-8, -257], [-7, -257, -8], None]
+
+
+def reg_policies(rng, req, cred_alg):
+    """(label, base overrides, looser overrides) pairs ordered by looseness"""
+    out = []
+    for up in (True, False):
+        for uv in (True, False):
+            for algs in ([], [cred_alg], [a for a in (-8, -257, -7) if a != cred_alg], None):
+                base = {"require_up": up, "require_uv": uv, "algs": algs}
+                if uv:
+                    out.append(("uv-not-required", base, dict(base, require_uv=False)))
+                if up:
+                    out.append(("up-waived", base, dict(base, require_up=False)))
+                if algs is not None:
+                    sup = list(algs) + [x for x in (-36, -259, cred_alg, -8) if x not in algs][: 1 + len(algs) % 3]
+                    out.append(("algs-superset", base, dict(base, algs=sup)))
+                    out.append(("algs-all", base, dict(base, algs=list(cases.ALL_ALGS))))
+                out.append(("origin-superset", base, dict(base, origin=[req.origin, "https://z.example"])))
+                out.append(("string-as-singleton", base, dict(base, origin=[req.origin])))
+    return out
+
+
+def reg_work(res, tie, fmt, choice, fs, variant):
+    from . import _reg
+    from ..sim import attest
+    b = _reg.build(fmt, choice, fs, flags=core.UP * (variant % 2) | core.UV * (variant // 2 % 2) | core.AT)
+    if b is None:
+        return
+    req, r = b
+    c = r.credential
+    rng = __import__("harness.common", fromlist=["x"]).Rng(variant)
+    pols = reg_policies(rng, req, choice[2])
+    for label, base, loose in (pols if variant % 5 == 0 else rng.sample(pols, 12)):
+        e1 = _reg.expectation(req, r.roots, **base)
+        e2 = _reg.expectation(req, r.roots, **loose)
+        c1 = cases.run_reg(c, e1)
+        c2 = cases.run_reg(c, e2)
+        res.evaluations += 2
+        if variant % 3 == 0:
+            tie.check(cases.reg_case(c, e1), c1, label=["reg", fmt, label])
+        res.nontrivial.add(("reg", fmt, choice, tuple(sorted(fs)), label, json.dumps(base, sort_keys=True)))
+        res.count("reg-loosen:" + label)
+        if c1["k"] == "accept" and (c2["k"] != "accept" or c2["record"] != c1["record"]):
+            res.violations.append({"why": f"registration accepted under {base} but rejected/changed under looser policy '{label}' {loose}: {c2.get('msg')}",
+                                   "case": cases.reg_case(c, e1), "looser": cases.reg_case(c, e2),
+                                   "match": {"op": "verify_reg", "relation": label}})
+    # input forms
+    e = _reg.expectation(req, r.roots)
+    outcomes = {"record": cases.run_reg(c, e)}
+    if "R.cred-type" not in fs:
+        outcomes["dict"] = cases.run_reg(c, e, "dict")
+        outcomes["text"] = cases.run_reg(c, e, "text")
+    for nm, wrap in (("bytes-subclass", MyBytes), ("memoryview", memoryview)):
+        c2 = dict(c, raw_id=wrap(c["raw_id"]), client_data_json=wrap(c["client_data_json"]), attestation_object=wrap(c["attestation_object"]))
+        outcomes[nm] = cases.run_reg(c2, dict(e, challenge=wrap(e["challenge"])))
+    res.evaluations += len(outcomes)
+    kinds = {k: (corr.kind(v), json.dumps(v.get("record"), sort_keys=True)) for k, v in outcomes.items()}
+    if len(set(kinds.values())) != 1:
+        res.violations.append({"why": f"registration input forms disagree: { {k: v[0] for k, v in kinds.items()} }", "case": cases.reg_case(c, e),
+                               "match": {"op": "verify_reg", "relation": "input-form"}})
+
+
 def work(tasks, idx):
     res = Result()
     drv = Driver(Oracle()) if work.driver_ok else None
     tie = corr.Tie(res, drv, "eq")
     cs = _auth.creds()
-    for ci, fs, variant in tasks:
+    for t in tasks:
+        if t[0] == "reg":
+            reg_work(res, tie, *t[1:])
+            continue
+        ci, fs, variant = t
         c = cs[ci]
         kw = {"flags": core.UP | (core.UV if variant % 4 else 0), "faults": fs, "require_uv": variant % 2 == 0}
         if variant % 3 == 0:
@@ -103,8 +170,18 @@ def run(ctx, res):
             tasks.append((ci, (f,), rng.randrange(12)))
         for _ in range(10 if ctx.quick() else 200):
             tasks.append((ci, tuple(rng.sample(F, rng.randrange(2, 5))), rng.randrange(12)))
+    from . import _reg
+    from ..sim import attest
+    for fmt in _reg.FORMATS:
+        choices = _reg.cred_choices(fmt)
+        for i in range(6 if ctx.quick() else 60):
+            tasks.append(("reg", fmt, rng.choice(choices), (), i))
+        for f in rng.sample(attest.CATALOGUE["ceremony"], 4 if ctx.quick() else len(attest.CATALOGUE["ceremony"])):
+            tasks.append(("reg", fmt, rng.choice(choices), (f,), rng.randrange(20)))
     work.driver_ok = ctx.driver_ok
     corr.merge(res, corr.parallel(work, tasks))
-    res.rule = ("every response of the C01 stream (valid, single-fault, multi-fault) under every policy and every looser policy "
+    res.rule = ("registrations of every format under policy pairs ordered by looseness (UV not required, UP waived, allowed "
+                "algorithms [] / [alg] / others / default -> supersets, origin supersets and string <-> list) and in all input forms; and "
+                "every response of the C01 stream (valid, single-fault, multi-fault) under every policy and every looser policy "
                 "(UV not required, origin superset, string <-> one-element list), and in all input forms (JSON text, dict, record x "
                 "bytes / bytes subclass / memoryview); distinct = (credential algorithm, fault set, policy variant)")
